@@ -82,6 +82,27 @@ func (c07) Run(c *fw.Case) {
 	if c.Idx%2 == 0 {
 		insts = append(insts, gen.ULongInstances(r, array, 4)...) // size stress: 63..257 items / properties
 	}
+	if !array && c.Idx%5 == 3 {
+		// names the schema does not know, among them the empty name and names made of separators: one (or the only) property
+		// of the object is then evaluated by nothing that names it
+		odd := gen.Pick(r, []string{"", "", " ", ",", "/", "a,b"})
+		from := gen.Pick(r, gen.UNames)
+		renamed := make([]any, 0, len(insts))
+		for _, im := range insts {
+			o, isObj := im.(map[string]any)
+			if v, has := o[from]; isObj && has {
+				o2 := map[string]any{}
+				for k, x := range o {
+					o2[k] = x
+				}
+				delete(o2, from)
+				o2[odd] = v
+				im = o2
+			}
+			renamed = append(renamed, im)
+		}
+		insts = renamed
+	}
 	for _, im := range insts {
 		valid, decided := mc.compare(c, m, rs, im, &ts, "unevaluated*")
 		if !decided {
